@@ -141,6 +141,7 @@ type Engine struct {
 	crashPoints  int
 	hookCheck    bool
 	netUp        bool
+	netStallNew  bool // new connections start out stalled (peer accepts, never reads)
 	netConns     []*netConn
 	netByPtr     map[*value]*netConn
 	httpSt       *httpState
@@ -200,6 +201,7 @@ func (e *Engine) resetPath() {
 	e.crashPoints = 0
 	e.hookCheck = false
 	e.netUp = false
+	e.netStallNew = false
 	e.netConns = nil
 	e.netByPtr = nil
 	e.httpSt = nil
